@@ -64,6 +64,16 @@ func buildNative(repo string, ld *loaded, tags string) (*nativeBuild, error) {
 		os.WriteFile(ovPath, ovb, 0o644)
 		bin := filepath.Join(tmp, fmt.Sprintf("replay_%d.test", i))
 		args := []string{"test", "-c", "-vet=off", "-overlay", ovPath, "-o", bin}
+		// never let the build touch the repository's go.mod / go.sum (a harness importing an
+		// indirect dependency would otherwise get it rewritten under -mod=mod): work on copies
+		if gm, err := os.ReadFile(filepath.Join(repo, "go.mod")); err == nil {
+			mf := filepath.Join(tmp, "go.mod")
+			os.WriteFile(mf, gm, 0o644)
+			if gs, err := os.ReadFile(filepath.Join(repo, "go.sum")); err == nil {
+				os.WriteFile(filepath.Join(tmp, "go.sum"), gs, 0o644)
+			}
+			args = append(args, "-modfile="+mf)
+		}
 		if tags != "" {
 			args = append(args, "-tags="+tags)
 		}
